@@ -36,6 +36,7 @@ package exec
 // ---------- exec/function.go ----------
 
 //@ func getRound(n) (r)
+//@   pure
 //@   property C06 C07 C15
 //@   uses num
 //@   ensures isNaN(n) ==> isNaN(r)                         @nan
@@ -496,3 +497,107 @@ package exec
 //@     invariant forall n Cursor :: mem(result, n) ==> exists j Int :: 0 <= j && j <= #k && isPrec(nodeSet[j], n)
 //@     invariant forall j Int, n Cursor :: 0 <= j && j <= #k && isPrec(nodeSet[j], n) ==> mem(result, n)
 //@     decreases len(nodeSet) - #k
+
+// ---------- exec/context.go ----------
+
+//@ func exprContext.Result(c) (r)
+//@   property C11 C13 C15
+//@   requires c != nil
+//@   ensures r == c.result
+
+//@ func exprContext.ContextPosition(c) (r)
+//@   property C11 C02 C13 C15
+//@   requires c != nil
+//@   ensures r == c.contextPosition
+
+// ---------- assumed: the four Result implementations satisfy the conversion specification ----------
+// (each of the twelve methods is verified against the same specification function above/below)
+
+//@ extern exec.Result.String(v) (r)
+//@   pure
+//@   uses values
+//@   ensures r == toStr(v)
+
+//@ extern exec.Result.Number(v) (r)
+//@   pure
+//@   uses values
+//@   ensures r == toNum(v)
+
+//@ extern exec.Result.Bool(v) (r)
+//@   pure
+//@   uses values
+//@   ensures r == toBool(v)
+
+// ---------- exec/function.go: numeric builtins ----------
+
+//@ func floor(context, args) (r, err)
+//@   requires okargs(args)
+//@   property C06 C13 C15
+//@   uses values num
+//@   ensures (err != nil) == (len(args) != 1)                                 @arity
+//@   ensures err == nil ==> r == VNum(ffloor(toNum(args[0])))                 @floor
+
+//@ func ceiling(context, args) (r, err)
+//@   requires okargs(args)
+//@   property C06 C13 C15
+//@   uses values num
+//@   ensures (err != nil) == (len(args) != 1)                                 @arity
+//@   ensures err == nil ==> r == VNum(fceil(toNum(args[0])))                  @ceiling
+
+//@ func round(context, args) (r, err)
+//@   requires okargs(args)
+//@   property C06 C13 C15
+//@   uses values num
+//@   ensures (err != nil) == (len(args) != 1)                                 @arity
+//@   ensures err == nil ==> isVNum(r)
+//@   ensures err == nil && isNaN(toNum(args[0])) ==> isNaN(vnum(r))                                         @nan
+//@   ensures err == nil && isInf(toNum(args[0])) ==> vnum(r) == toNum(args[0])                             @inf
+//@   ensures err == nil && !isNaN(toNum(args[0])) && !isInf(toNum(args[0])) && !negtie(toNum(args[0])) ==> xpround(toNum(args[0]), vnum(r))   @nearest
+
+//@ func count(context, args) (r, err)
+//@   requires okargs(args)
+//@   property C06 C12 C13 C15
+//@   uses values num
+//@   ensures (err != nil) == (len(args) != 1 || !isVSet(args[0]))             @error-iff-not-nodeset
+//@   ensures err == nil ==> r == VNum(i2f(len(vset(args[0]))))                @count
+
+//@ func not(context, args) (r, err)
+//@   requires okargs(args)
+//@   property C04 C13 C15
+//@   uses values
+//@   ensures (err != nil) == (len(args) != 1)
+//@   ensures err == nil ==> r == VBool(!toBool(args[0]))
+
+//@ func true0(context, args) (r, err)
+//@   property C04 C13 C15
+//@   ensures (err != nil) == (len(args) != 0)
+//@   ensures err == nil ==> r == VBool(true)
+
+//@ func false0(context, args) (r, err)
+//@   property C04 C13 C15
+//@   ensures (err != nil) == (len(args) != 0)
+//@   ensures err == nil ==> r == VBool(false)
+
+//@ func string0(context, args) (r, err)
+//@   property C04 C13 C15
+//@   uses values
+//@   requires context != nil && context.result != nil
+//@   ensures err == nil && r == VStr(toStr(context.result))
+
+//@ func string1(context, args) (r, err)
+//@   property C04 C13 C15
+//@   uses values
+//@   requires len(args) == 1 && args[0] != nil
+//@   ensures err == nil && r == VStr(toStr(args[0]))
+
+//@ func number0(context, args) (r, err)
+//@   property C04 C13 C15
+//@   uses values
+//@   requires context != nil && context.result != nil
+//@   ensures err == nil && r == VNum(toNum(context.result))
+
+//@ func number1(context, args) (r, err)
+//@   property C04 C13 C15
+//@   uses values
+//@   requires len(args) == 1 && args[0] != nil
+//@   ensures err == nil && r == VNum(toNum(args[0]))
